@@ -95,11 +95,19 @@ EngineClauses(m, e) ==
         <<"DRIFT_EngineTouched", ~hijack /\ e.called = want /\ e.called # 99 /\
               ~( e.aHost = e.host /\ e.aPort = e.port /\ e.a4 = e.v4 /\ e.a6 = e.v6 /\ e.aHasRI = e.hasRI )>> >>
 
+DriftClauses == {"DRIFT_EngineRewrite", "DRIFT_EngineTouched", "DRIFT_CompileRejected"}
+\* drift reports must not use up the room of the violation set (Mon!V keeps 40 records)
+Judge(viol, e, ln, cs) ==
+  LET room == Cardinality({v \in viol : v.clause \in DriftClauses}) < 8 IN
+  VAll(viol, e, ln, SelectSeq(cs, LAMBDA c : room \/ c[1] \notin DriftClauses))
+
 MonStep(m, e, ln) ==
   CASE e.ev = "Reset"  -> [MonInit EXCEPT !.viol = m.viol]
     [] e.ev = "Rules"  -> [m EXCEPT !.rules = NormRules(e.rules), !.dflt = e.dflt]
-    [] e.ev = "Match"  -> [m EXCEPT !.viol = VAll(m.viol, e, ln, MatchClauses(m, e))]
-    [] e.ev = "Engine" -> [m EXCEPT !.viol = VAll(m.viol, e, ln, EngineClauses(m, e))]
+    [] e.ev = "Match"  -> [m EXCEPT !.viol = Judge(m.viol, e, ln, MatchClauses(m, e))]
+    [] e.ev = "Engine" -> [m EXCEPT !.viol = Judge(m.viol, e, ln, EngineClauses(m, e))]
     [] e.ev = "Panic"  -> [m EXCEPT !.viol = V(m.viol, e, ln, "Panic", TRUE)]
+    \* a rule file of the documented grammar that this tree refuses to compile: no lookups to judge (scenario skipped)
+    [] e.ev = "CompileFail" -> [m EXCEPT !.viol = Judge(m.viol, e, ln, << <<"DRIFT_CompileRejected", TRUE>> >>)]
     [] OTHER           -> m
 ===========================================================================
